@@ -26,7 +26,14 @@ import (
 
 type Rand struct{ s uint64 }
 
-func NewRand(seed uint64) *Rand { return &Rand{s: seed*0x9E3779B97F4A7C15 + 0x1234567} }
+// NewRand: the seed is hashed first, so that neighbouring seeds give unrelated streams (the state
+// advances by a fixed increment per draw: without the hash, seed n+1 is seed n shifted by one draw)
+func NewRand(seed uint64) *Rand {
+	z := seed*0x9E3779B97F4A7C15 + 0x1234567
+	z = (z ^ (z >> 30)) * 0xBF58476D1CE4E5B9
+	z = (z ^ (z >> 27)) * 0x94D049BB133111EB
+	return &Rand{s: z ^ (z >> 31)}
+}
 
 func (r *Rand) U64() uint64 {
 	r.s += 0x9E3779B97F4A7C15
@@ -565,6 +572,9 @@ func Run(pid, tier string, seed uint64, driver, outPath, corpusDir string, only 
 				x.Kind = "disagreement"
 				res.Issues = append(res.Issues, x)
 			}
+		}
+		if ds := os.Getenv("VERIF_DBG_STREAM"); ds != "" && ds == c.Stream {
+			fmt.Fprintln(os.Stderr, "CASE", strings.Join(c.Tags, ","), "|", clip(c.Cmd.String(), 1500), "|", clip(impl[i].obs, 400))
 		}
 		if len(res.Samples) < 12 && (i%((len(cases)/12)+1) == 0) {
 			res.Samples = append(res.Samples, map[string]string{"stream": c.Stream, "case": clip(c.Cmd.String(), 600), "impl": clip(impl[i].obs, 300), "model": clip(iss.Model, 300)})
